@@ -552,6 +552,9 @@ class Unit:
             self.include(em, sub["include"], sub.get("kind", "spec"))
         elif "raw" in sub:
             em.emit(sub["raw"], {"kind": "glue"})
+        elif "generator" in sub:
+            import importlib
+            importlib.import_module(sub["generator"]).generate(self, em)
         elif "verbatim" in sub:
             sf = self.src(sub["file"])
             it = sf.find(sub["verbatim"])
